@@ -441,11 +441,10 @@ impl DutCore {
     ) -> Result<DutCore, String> {
         let names: Vec<String> = test_sigs.iter().map(|s| s.name.clone()).collect();
         let model = DutModel::new(spec, &names)?;
-        let own = model
-            .layout_ids
-            .iter()
-            .map(|i| test_sigs[*i as usize].clone())
-            .collect();
+        // the driver's own copies of the signals, built from the configuration (the way a
+        // real driver holds the signals it was created with), not clones of what the
+        // library stored after binding
+        let own = model.spec.layout.iter().map(|(s, _)| real_signal(s)).collect();
         let extra = model.foreign.iter().map(|f| real_signal(&f.spec)).collect();
         Ok(DutCore {
             model,
